@@ -167,6 +167,8 @@ func (c *Check) Run() {
 		if g == "" {
 			g = "solo:" + o.Name
 		}
+		// obligations are batched only with obligations that share the same common hypotheses
+		g = fmt.Sprintf("%s|%d", g, And(o.Common...).id)
 		if _, ok := groups[g]; !ok {
 			order = append(order, g)
 		}
@@ -182,7 +184,7 @@ func (c *Check) Run() {
 			if end > len(idx) {
 				end = len(idx)
 			}
-			b := &batch{name: sanitize(g), idx: idx[k:end]}
+			b := &batch{name: sanitize(strings.SplitN(g, "|", 2)[0]) + "." + sanitize(strings.SplitN(g, "|", 2)[1]), idx: idx[k:end]}
 			if k > 0 {
 				b.name += fmt.Sprintf(".part%d", k/chunk)
 			}
@@ -381,7 +383,7 @@ func runReplayTest(src string) (failed bool, out string) {
 func (c *Check) replay(r *ObResult) *ReplayRec {
 	rec := &ReplayRec{Obligation: r.Ob.Name, Property: c.Prop, Pos: r.Ob.Pos, Status: r.Status, Solver: r.Solver,
 		SolverOut: truncate(r.Output, 4000), SMTFile: r.SMTFile, Witness: r.Witness}
-	if r.Status == "violated" && r.Ob.Replay != nil {
+	if (r.Status == "violated" || r.Status == "undischarged" || r.Status == "engine-error") && r.Ob.Replay != nil {
 		src := r.Ob.Replay(r.Witness)
 		if src != "" {
 			rec.GoTest = src
